@@ -206,15 +206,17 @@ fn pdata_for(guid: GUID) -> Vec<u8> {
     .to_vec()
 }
 
-fn party(id: &Identity, seed: u8) -> Party {
+/// What every participant does first with its own identity. A failure with a CA-issued
+/// identity is a violation (reported by `run`), so it is an error value here, not a panic.
+fn try_party(id: &Identity, seed: u8) -> Result<Party, String> {
   let mut auth = AuthenticationBuiltin::new();
   let candidate = GUID::new(rig::node_prefix(seed), EntityId::PARTICIPANT);
-  let (outcome, handle, guid) = auth
-    .validate_local_identity(0, &qos(id), candidate)
-    .unwrap_or_else(|e| panic!("C19 set-up: validate_local_identity: {e:?}"));
-  assert!(matches!(outcome, ValidationOutcome::Ok), "C19 set-up: validate_local_identity outcome");
-  let token = auth.get_identity_token(handle).unwrap_or_else(|e| panic!("C19 set-up: get_identity_token: {e:?}"));
-  Party {
+  let (outcome, handle, guid) = auth.validate_local_identity(0, &qos(id), candidate).map_err(|e| format!("validate_local_identity: {e:?}"))?;
+  if !matches!(outcome, ValidationOutcome::Ok) {
+    return Err(format!("validate_local_identity outcome {outcome:?}"));
+  }
+  let token = auth.get_identity_token(handle).map_err(|e| format!("get_identity_token: {e:?}"))?;
+  Ok(Party {
     auth,
     handle,
     guid,
@@ -222,7 +224,12 @@ fn party(id: &Identity, seed: u8) -> Party {
     pdata: pdata_for(guid),
     peer: 0,
     hs: 0,
-  }
+  })
+}
+
+/// for the places that come after `run` has seen both genuine identities validate
+fn party(id: &Identity, seed: u8) -> Party {
+  try_party(id, seed).unwrap_or_else(|e| panic!("C19 set-up: {e}"))
 }
 
 /// a complete genuine run; returns the three messages and both parties
@@ -282,7 +289,7 @@ fn claimed_pdata(own: &Party, claim: Claim) -> Vec<u8> {
 }
 
 fn genuine_run(ida: &Identity, idb: &Identity, seeds: (u8, u8), claim: Claim) -> Result<Run, String> {
-  let (mut i, mut r) = ordered(party(ida, seeds.0), party(idb, seeds.1));
+  let (mut i, mut r) = ordered(try_party(ida, seeds.0)?, try_party(idb, seeds.1)?);
   introduce(&mut i, &mut r)?;
   // (other than Own:) a CA-issued identity that claims a GUID which is not derived from its certificate
   let pdata_i = claimed_pdata(&i, claim);
@@ -405,20 +412,6 @@ pub fn run(_scenario: u32, choices: &[u8], _strict: bool) -> Outcome {
   let swap_roles = c.bool();
   let (ida, idb) = if swap_roles { (&f.id2, &f.id1) } else { (&f.id1, &f.id2) };
 
-  // ---------------------------------------------------------------- (0) calibration of the hand-built reply
-  // built with a CA-issued identity it must be accepted, otherwise rejecting the foreign one proves nothing
-  static CALIBRATED: std::sync::Once = std::sync::Once::new();
-  CALIBRATED.call_once(|| {
-    let (mut i, mut r) = ordered(party(&f.id1, 7), party(&f.id2, 130));
-    introduce(&mut i, &mut r).expect("C19 calibration: introduce");
-    let (_, hs, request) = i.auth.begin_handshake_request(i.handle, i.peer, i.pdata.clone()).expect("C19 calibration: request");
-    let t = attacker_reply(&request, &f.id2, 130).expect("C19 calibration: hand-built reply");
-    match i.auth.process_handshake(t, hs) {
-      Ok((ValidationOutcome::OkFinalMessage, Some(_))) => {}
-      other => panic!("C19 calibration: a hand-built reply with a CA-issued identity is not accepted: {:?}", other.map(|(oc, _)| oc)),
-    }
-  });
-
   // ---------------------------------------------------------------- (1) the genuine run, twice (a donor of other values)
   let genuine = match genuine_run(ida, idb, seeds, Claim::Own) {
     Ok(r) => r,
@@ -439,6 +432,20 @@ pub fn run(_scenario: u32, choices: &[u8], _strict: bool) -> Outcome {
     }
   }
   let donor = genuine;
+
+  // ---------------------------------------------------------------- (1b) calibration of the hand-built reply (after the genuine run: if that fails, it is the finding)
+  // built with a CA-issued identity it must be accepted, otherwise rejecting the foreign one proves nothing
+  static CALIBRATED: std::sync::Once = std::sync::Once::new();
+  CALIBRATED.call_once(|| {
+    let (mut i, mut r) = ordered(party(&f.id1, 7), party(&f.id2, 130));
+    introduce(&mut i, &mut r).expect("C19 calibration: introduce");
+    let (_, hs, request) = i.auth.begin_handshake_request(i.handle, i.peer, i.pdata.clone()).expect("C19 calibration: request");
+    let t = attacker_reply(&request, &f.id2, 130).expect("C19 calibration: hand-built reply");
+    match i.auth.process_handshake(t, hs) {
+      Ok((ValidationOutcome::OkFinalMessage, Some(_))) => {}
+      other => panic!("C19 calibration: a hand-built reply with a CA-issued identity is not accepted: {:?}", other.map(|(oc, _)| oc)),
+    }
+  });
 
   // ---------------------------------------------------------------- (2) a run with one fault
   let stage = [Stage::Request, Stage::Reply, Stage::Final, Stage::Completed][c.weighted(&[3, 5, 5, 2])];
